@@ -56,6 +56,11 @@ def case_strategy(profile):
         kinds = ["deliver"]
     fate = st.tuples(st.sampled_from(kinds), delay, delay).map(list)
     fates = st.lists(fate, min_size=profile.get("min_fates", 25), max_size=profile.get("max_fates", 120))
+    if not profile.get("lossless"):
+        # loss comes in bursts too: a run of consecutive datagrams (both directions) disappears
+        burst = st.integers(2, 8).map(lambda k: [["drop", 0.0, 0.0]] * k)
+        seg = st.one_of(fate.map(lambda f: [f]), fate.map(lambda f: [f]), fate.map(lambda f: [f]), fate.map(lambda f: [f]), fate.map(lambda f: [f]), fate.map(lambda f: [f]), fate.map(lambda f: [f]), burst)
+        fates = st.lists(seg, min_size=profile.get("min_fates", 25), max_size=profile.get("max_fates", 120)).map(lambda xs: [f for g in xs for f in g])
     cfg = st.fixed_dictionaries(
         {
             "cc": st.sampled_from(["reno", "cubic"]),
